@@ -296,17 +296,29 @@ def asWords (c : Conv) (fmt : FmtEnv) (optional : AttrVal) (mwords : List Word) 
   | _, .auto => .ok [wordOf "Auto"]
   | .words, .words ws => .ok ws
   | .strings, .list vs =>
-    vs.foldlM (init := ([] : List Word)) (fun (acc : List Word) (x : PVal) => match x with
-      | .str s => .ok (acc ++ [if isStdIdentNotNoneAuto s then { value := s } else { value := s, quote := some .d1 }])
-      | _ => .error (.unsupported "strings element"))
+    -- strings_as_words: identifier-like elements stay bare unless an earlier element spans lines
+    let step : (List Word × Bool) → PVal → R (List Word × Bool) := fun st x =>
+      match x with
+      | .str s =>
+        let bare := isStdIdentNotNoneAuto s && !st.2
+        .ok (st.1 ++ [if bare then { value := s } else { value := s, quote := some .d1 }], st.2 || s.contains '\n')
+      | _ => .error (.unsupported "strings element")
+    (vs.foldlM step (([] : List Word), false)).map (·.1)
   | .str, .str s | .path, .str s | .key, .str s => .ok [{ value := s, quote := some .d1 }]
   | .qstr, .str s =>
     (match tokenizeValueLiteral s with
      | .ok ws => .ok (ws.map (fun w => { w with line := w.line }))
      | .error e => .error (tokErr e))
   | .bool, .bool b => .ok [wordOf (if b then "True" else "False")]
-  | .int _, v => (numStr true fmt v).map (fun s => [{ value := s }])
-  | .float _, v => (numStr false fmt v).map (fun s => [{ value := s }])
+  | .int a, v | .float a, v =>
+    let isInt := match c with | .int _ => true | _ => false
+    let chk : R Unit := match v with
+      | .num n => checkValue a.valueMin a.valueMax [] false n
+      | .bool b => checkValue a.valueMin a.valueMax [] false (.int (if b then 1 else 0))
+      | _ => .ok ()
+    (match chk with
+     | .error e => .error e
+     | .ok () => (numStr isInt fmt v).map (fun s => [{ value := s }]))
   | .ints a, .list vs | .floats a, .list vs =>
     let isInt := match c with | .ints _ => true | _ => false
     (match checkSize a.sizeMin a.sizeMax [] false vs.length with
